@@ -123,6 +123,10 @@ def run(ns, prop=None):
                 print("GAINED", n, alarms[n][own][:3])
             if not now:
                 silent.append(n)
+            if "--update" in sys.argv and meta:
+                meta["detected_by_check"] = bool(now)
+                meta["violation_keys"] = alarms.get(n, {}).get(own, [])[:8]
+                json.dump(meta, open(os.path.join(NEUTRAL, n, "meta.json"), "w"), indent=1)
         print("mutants=%d reported by own property=%d silent=%s" % (len(ns), len(ns) - len(silent), silent))
         return 0
     for n in ns:
